@@ -84,13 +84,50 @@ def parent_case(arg):
     return out
 
 
+def l2_configs(tier):
+    """The handshake at pool level: the real parent (``synack=True``, the
+    embedder's queue plumbing played by the harness as Celery does) against
+    reference workers that wait for the answer to their accept message.
+    Histories of submit / cancel / take / deliver / answer-read / finish /
+    supervision / scan / clock events."""
+    T = tier == 'thorough'
+    ap = dict(kind='apply', fn='ok')
+    boom = dict(kind='apply', fn='boom')
+    base = dict(lost_worker_timeout=3.0, synack=True)
+    A = dict(die=(), cancel=True, put_faults=(), max_adv=2, scan=True)
+    d = 9 if not T else 11
+    ms = 30000 if not T else 400000
+    out = []
+
+    def cfg(name, procs, jobs, pool=None, alphabet=None, depth=d):
+        out.append(dict(name='L2-handshake/' + name, procs=procs, jobs=jobs,
+                        pool=dict(base, **(pool or {})),
+                        alphabet=dict(A, **(alphabet or {})), depth=depth,
+                        max_states=ms, final='harness.c01:final'))
+    cfg('2proc/2apply+cancel', 2, [ap, boom])
+    cfg('1proc/3apply+cancel', 1, [ap, ap, ap], depth=d + 1)
+    cfg('1proc/quota1+cancel', 1, [ap, ap], pool=dict(maxtasksperchild=1),
+        depth=d + 1)
+    cfg('2proc/accept-callback-raises', 2, [dict(ap, acc_raises=True), ap],
+        alphabet=dict(cancel=False))
+    cfg('2proc/cancel+worker-death', 2, [ap, ap],
+        alphabet=dict(die=(-9,), die_idle=False))
+    cfg('1proc/cancel+limits', 1, [dict(ap, soft=1.0, hard=2.0), ap],
+        pool=dict(enable_timeouts=True), depth=d + 1)
+    cfg('2proc/cancel+terminate_job', 2, [ap, ap],
+        alphabet=dict(terminate_job=True))
+    return out
+
+
 def main(tier, seed, only=None):
-    from harness import l1
+    from harness import l1, l2run
     rep = report.Report('C03', tier, seed)
     if not only or 'L1' in only:
         l1.part(rep, tier, 'L1-worker-protocol',
                 [signal.SIGKILL] if tier == 'quick'
                 else [signal.SIGKILL, signal.SIGTERM])
+    if not only or 'L2' in only:
+        l2run.run_into(rep, 'C03', tier, seed, l2_configs(tier))
     steps = ['cancel', 'ack', 'ready']
     cases = []
     for n in (1, 2, 3):
@@ -125,5 +162,9 @@ def replay(rp):
         r = parent_case(tuple(rp['case']))
         print(r)
         return 1 if r['violation'] else 0
+    if rp.get('harness') == 'c03':
+        from harness import l2run
+        return l2run.replay('C03', rp, l2_configs('thorough') +
+                            l2_configs('quick'))
     from harness import l1
     return l1.replay(rp)
